@@ -82,7 +82,7 @@ def run(tier, prop='C13', classes=SCOPE_CLASSES, required=REQUIRED, explanation=
     seen = set(); covered = set(); calls = 0; rows = 0
     for p in paths:
         res = results[p]
-        for b in res['broken']: R.broke(b)
+        for b in res['broken']: R.broke_at(p, b)
         for f in res['fns']:
             if f['disp'] in seen: continue
             seen.add(f['disp']); covered.add(f['tn']); calls += f['ncalls']; rows += f['rows']
